@@ -5,6 +5,7 @@ package disk
 
 import (
 	"io"
+	mrand "math/rand"
 	"testing"
 
 	"gitlab.com/yawning/obfs4.git/common/csrand"
@@ -33,6 +34,21 @@ var env = &harness.Env{
 			csrand.Reader = r
 		}
 	},
+}
+
+// steerPads: see harness.SteeredSource (ScrambleSuit handshake padding
+// 0..1308 for UniformDH, 0..1388 for the ticket handshake).
+func steerPads(c *harness.Ctx, ranges ...int) {
+	if c.T.Draw("steer-rand", 3) == 0 {
+		return
+	}
+	src := harness.NewSteeredSource(csrand.Bytes, ranges...)
+	orig := csrand.Rand
+	csrand.Rand = mrand.New(src)
+	c.AtEnd(func() {
+		csrand.Rand = orig
+		c.S.Count("fault.steered-random-draw", src.Hits())
+	})
 }
 
 // maybeYields switches the woven statement-level yields of the ScrambleSuit
